@@ -234,5 +234,132 @@ def genotype_alleles_as_index(alleles: A[i8, 1]) -> int:
             unfold(IDX(alleles, i + 1))
             lemma_cwr_nonneg(alleles[i], i + 1)
             lemma_sorted_le(alleles, i, len(alleles) - 1, len(alleles))
+            lemma_cwr_safe(alleles[i], i + 1)
     with exit_():
         lemma_idx_bound(alleles, len(alleles))
+
+
+@lemma
+def lemma_pow2_54():
+    ensures(pow2(54) == 2 ** 54)
+    lemma_pow2_53()
+    lemma_pow2_add(53, 1)
+    unfold(pow2(1), pow2(0))
+
+
+@lemma
+def lemma_probe_safe(n1: int, p: int):
+    """the coefficient probed one step beyond a value < 2^53 still satisfies SAFE (ploidy <= 255)"""
+    requires(n1 >= 2, 1 <= p, p <= 255, cwr(n1 - 1, p) < 2 ** 53)
+    ensures(binom(n1 + p - 1, p) * min(p, n1 - 1) < 2 ** 63)
+    unfold(cwr(n1 - 1, p))
+    lemma_binom_mult2(n1 + p - 1, p)
+    lemma_binom_nonneg(n1 + p - 1, p)
+    lemma_binom_nonneg(n1 + p - 2, p)
+    if p <= n1 - 1:
+        assert_(binom(n1 + p - 2, p) * (n1 + p - 1) <= binom(n1 + p - 2, p) * (2 * (n1 - 1)))
+        assert_(binom(n1 + p - 1, p) * (n1 - 1) <= (2 * binom(n1 + p - 2, p)) * (n1 - 1))
+        assert_(binom(n1 + p - 1, p) <= 2 * binom(n1 + p - 2, p))
+        if p >= 54:
+            lemma_central(p)
+            lemma_binom_mono_n(2 * p, n1 + p - 1, p)
+            lemma_pow2_mono(54, p)
+            lemma_pow2_54()
+        assert_(binom(n1 + p - 1, p) * p <= binom(n1 + p - 1, p) * 53)
+    else:
+        assert_(binom(n1 + p - 2, p) * (n1 + p - 1) <= binom(n1 + p - 2, p) * 510)
+
+
+@lemma
+def lemma_cwr_zero(p: int):
+    requires(p >= 1)
+    ensures(cwr(0, p) == 0)
+    unfold(cwr(0, p))
+    unfold(binom(p - 1, p))
+
+
+@contract("mchap.jitutils.index_as_genotype_alleles", machine_ints=True, props=["C11"])
+def index_as_genotype_alleles(index: int, ploidy: int) -> A[i8, 1]:
+    requires(0 <= index, index < 2 ** 53)
+    requires(1 <= ploidy, ploidy <= 255)  # side condition of the overflow proof of the last probe
+    ensures(len(result) == ploidy)
+    ensures(forall(0, ploidy, lambda t: result[t] >= 0))
+    ensures(forall(1, ploidy, lambda t: result[t - 1] <= result[t]))
+    # right inverse of genotype_alleles_as_index
+    ensures(IDX(result, ploidy) == old(index))
+    with loop(0):
+        invariant(0 <= index, index <= ploidy, 0 <= remainder, remainder < 2 ** 53, len(out) == ploidy)
+        invariant(old(index) == remainder + IDX(out, ploidy) - IDX(out, ploidy - index))
+        invariant(forall(ploidy - index, ploidy, lambda q: out[q] >= 0))
+        invariant(forall(ploidy - index + 1, ploidy, lambda q: out[q - 1] <= out[q]))
+        invariant(implies(index >= 1, remainder < cwr(out[ploidy - index] + 1, ploidy - index)))
+    with loop(1):
+        invariant(n >= -1, new >= 0, prev >= 0, prev <= remainder)
+        invariant(new == ite(n >= 0, cwr(n, p), 0))
+        invariant(prev == ite(n >= 1, cwr(n - 1, p), 0))
+        decreases(remainder + 2 - n)
+        with head():
+            if n >= 1:
+                lemma_cwr_ge_n(n, p)
+                lemma_probe_safe(n + 1, p)
+            lemma_cwr_nonneg(n + 1, p)
+        with after():
+            lemma_cwr_zero(p)
+    with after_stmt("out[p - 1] = n"):
+        # n is the chosen allele a: cwr(a,p) = prev <= old remainder < cwr(a+1,p)
+        lemma_idx_frame(out, at("loop1", out), p, ploidy)
+        unfold(IDX(out, p))
+        lemma_idx_frame(out, at("loop1", out), 0, p - 1)
+        lemma_cwr_pascal(n, p)
+        if index >= 1:
+            if n >= at("loop1", out)[p] + 1:
+                lemma_cwr_mono_n(at("loop1", out)[p] + 1, n, p)
+    with exit_():
+        unfold(cwr(result[0] + 1, 0))
+        unfold(binom(result[0], 0))
+        unfold(IDX(result, 0))
+
+
+@lemma
+def lemma_idx_lower(g: A[int, 1], m: int):
+    """IDX(g,m) >= cwr(g[m-1], m)"""
+    requires(m >= 1, forall(0, m, lambda t: g[t] >= 0), forall(1, m, lambda t: g[t - 1] <= g[t]))
+    ensures(IDX(g, m) >= cwr(g[m - 1], m))
+    lemma_idx_bound(g, m)
+    unfold(IDX(g, m))
+
+
+@lemma
+def lemma_idx_inj(g: A[int, 1], h: A[int, 1], m: int):
+    """IDX is injective on sorted non-negative tuples (with the right-inverse above: a bijection)"""
+    requires(m >= 0)
+    requires(forall(0, m, lambda t: g[t] >= 0), forall(1, m, lambda t: g[t - 1] <= g[t]))
+    requires(forall(0, m, lambda t: h[t] >= 0), forall(1, m, lambda t: h[t - 1] <= h[t]))
+    requires(IDX(g, m) == IDX(h, m))
+    ensures(forall(0, m, lambda t: g[t] == h[t]))
+    decreases(m)
+    if m >= 1:
+        lemma_idx_bound(g, m)
+        lemma_idx_bound(h, m)
+        lemma_idx_lower(g, m)
+        lemma_idx_lower(h, m)
+        if g[m - 1] < h[m - 1]:
+            lemma_cwr_mono_n(g[m - 1] + 1, h[m - 1], m)
+        if h[m - 1] < g[m - 1]:
+            lemma_cwr_mono_n(h[m - 1] + 1, g[m - 1], m)
+        unfold(IDX(g, m), IDX(h, m))
+        lemma_idx_inj(g, h, m - 1)
+
+
+@lemma
+def lemma_idx_range(g: A[int, 1], m: int, n_alleles: int):
+    """position < number of genotypes  <=>  every allele is a listed allele"""
+    requires(m >= 1, n_alleles >= 1)
+    requires(forall(0, m, lambda t: g[t] >= 0), forall(1, m, lambda t: g[t - 1] <= g[t]))
+    ensures((IDX(g, m) < cwr(n_alleles, m)) == (g[m - 1] < n_alleles))
+    lemma_idx_bound(g, m)
+    lemma_idx_lower(g, m)
+    if g[m - 1] < n_alleles:
+        lemma_cwr_mono_n(g[m - 1] + 1, n_alleles, m)
+    else:
+        lemma_cwr_mono_n(n_alleles, g[m - 1], m)
